@@ -188,6 +188,9 @@ func (cf *MappingFlag) Set(v string) error {
 	default:
 		return fmt.Errorf("expected <level>:[:<suffix>], got %s", s[0])
 	}
+	if level < 0 || suffix < 0 {
+		return fmt.Errorf("expected non-negative <level> and <suffix>, got %q", s[0])
+	}
 	if len(s) == 2 {
 		if regex, err = regexp.Compile(s[1]); err != nil {
 			return err
